@@ -118,6 +118,9 @@ impl Sharder {
     }
 
     /// Assuming the node is a replica for a given token, returns the shard that owns this token.
+    #[cfg_attr(kani, kani::requires(self.msb_ignore < 64))]
+    #[cfg_attr(kani, kani::ensures(|r: &Shard| *r < self.nr_shards.get() as u32
+        && *r as u128 == verif_kani::spec_shard(token.value, self.nr_shards.get(), self.msb_ignore)))]
     pub fn shard_of(&self, token: Token) -> Shard {
         let mut biased_token = (token.value as u64).wrapping_add(1u64 << 63);
         biased_token <<= self.msb_ignore;
@@ -126,6 +129,8 @@ impl Sharder {
 
     /// If we connect to ScyllaDB using ScyllaDB's shard aware port, then ScyllaDB assigns a shard to the
     /// connection based on the source port. This calculates the assigned shard.
+    #[cfg_attr(kani, kani::ensures(|r: &Shard| *r < self.nr_shards.get() as u32
+        && (source_port / self.nr_shards.get()) as u32 * self.nr_shards.get() as u32 + *r == source_port as u32))]
     pub fn shard_of_source_port(&self, source_port: u16) -> Shard {
         (source_port % self.nr_shards.get()) as Shard
     }
@@ -141,6 +146,8 @@ impl Sharder {
         .expect("Impossible to draw any port from provided range")
     }
 
+    #[cfg_attr(kani, kani::requires(shard < self.nr_shards.get() && verif_kani::valid_range(port_range)))]
+    #[cfg_attr(kani, kani::ensures(|r: &Option<u16>| verif_kani::lowest_port_post(self, shard, port_range, *r)))]
     fn calculate_lowest_port_for_shard_in_range(
         &self,
         shard: u16,
@@ -503,3 +510,7 @@ mod tests {
         let _port: u16 = sharder.draw_source_port_for_shard(30000);
     }
 }
+
+// Verification hook (inert unless built by `cargo kani`, which sets --cfg kani).
+#[cfg(kani)]
+mod verif_kani;
